@@ -139,6 +139,7 @@ pub const FEATURES: &[(&str, &str)] = &[
     ("cond-regex", "[[ abc =~ ^a(b)c$ ]]"),
     ("case-multi", "case $1 in a|b) ok 1 ;; c) ok 2 ;& d) ok 3 ;;& *) ok 4 ;; esac"),
     ("case-empty", "case x in esac"),
+    ("case-empty-fallthrough", "case a in a) ;& b) ok 1 ;;& c) ;;& d) ;& *) ok 2 ;; esac"),
     ("case-noarm-body", "case x in a) ;; esac"),
     ("for-default", "for i; do ok $i; done"),
     ("for-list", "for i in a \"b c\" $x; do ok 1; done"),
